@@ -275,6 +275,9 @@ class Reporter:
 
 
 def write_evidence(prop, tier, level, coverage, wall_s, violations, assumptions=None):
+    # a check that judged nothing must not report "held" (vacuity guard)
+    if not coverage.get("traces_validated_against_impl") or not coverage.get("evaluations") or coverage.get("distinct_nontrivial", 0) < 2:
+        raise ToolError("vacuous run of %s: %s observations judged, %s non-trivial cases" % (prop, coverage.get("traces_validated_against_impl"), coverage.get("distinct_nontrivial")))
     os.makedirs(EVIDENCE, exist_ok=True)
     ev = {
         "property_id": prop,
